@@ -10,6 +10,9 @@ def load(f):
     return json.load(open(p)) if os.path.exists(p) else {}
 old = load("meta.json")
 conf, ev = load("confirm.json"), load("eval.json")
+full = load("confirm_full_run.json")
+if full:
+    conf = dict(conf); conf["earlier_full_suite_run"] = {k: v for k, v in full.items() if k.startswith("suite") or k == "when"}; conf["note"] = "the whole suite was run first (earlier_full_suite_run); the packages that failed there under load (timeout / UI timing) were then re-run alone with the change applied (this run)"
 files = sorted(set(re.findall(r"^\+\+\+ b/(\S+)", open(os.path.join(d, "patch.diff")).read(), re.M)))
 demo = open(os.path.join(d, "demo_cmd.txt")).read().strip().splitlines()[0]
 base = open(os.path.join(d, "base")).read().strip() if os.path.exists(os.path.join(d, "base")) else conf.get("base", "")
